@@ -94,7 +94,10 @@ impl Prop for C10 {
     for i in 0..n {
       let mut rng = Rng::keyed(seed, &format!("c10a{}", i));
       let len = 1 + rng.below(9) as usize;
-      let general = rng.chance(1, 3); let p = random_program(&mut rng, len, general, true);
+      let general = rng.chance(1, 3); let mut p = random_program(&mut rng, len, general, true);
+      // a bare formula on a line of its own is ambiguous between code and prose (the document grammar may read `0.25 / 4 - (2 * 7)` as a
+      // paragraph, whose lone `*` is then malformed prose): every code statement of the generated documents is a definition or an assignment
+      for (j, st) in p.stmts.iter_mut().enumerate() { if !(st.contains(":=") || st.contains(" = ") || st.contains("+=") || st.contains("-=") || st.contains("*=") || st.contains("/=")) { *st = format!("w{} := {}", j, st); } }
       let mut blocks: Vec<String> = Vec::new();
       let titled = rng.chance(1, 3);
       if titled { blocks.push("A Generated Document\n===============================================================================".into()); }
